@@ -281,6 +281,8 @@ impl RunConfig {
                     shutdown_manager: &shutdown::Manager,
                     #[allow(unused_variables)] descriptor: &PortDescriptor,
                 ) -> AcceptManager {
+                    #[cfg(feature = "verif-hooks")]
+                    crate::verif::point("ex.bind", i64::from(address.port()));
                     let socket = create_socket();
                     // match MIO's settings
                     socket
@@ -351,7 +353,10 @@ impl RunConfig {
                     #[cfg(not(feature = "uring"))]
                     let listener = TcpListener::from_std(socket.into()).unwrap();
 
-                    shutdown_manager.add_listener(shutdown::Listener::Tcp(listener))
+                    let listener = shutdown_manager.add_listener(shutdown::Listener::Tcp(listener));
+                    #[cfg(feature = "verif-hooks")]
+                    crate::verif::point("ex.bound", i64::from(address.port()));
+                    listener
                 }
 
                 if matches!(descriptor.version, BindIpVersion::V4 | BindIpVersion::Both) {
